@@ -736,46 +736,46 @@ def pattern_i32_to_i32(context, tree, c0):
     return c0
 
 
+def extend_to_32(context, c0, bits, signed):
+    """Sign or zero extend the low bits of c0 into a fresh register.
+
+    The source register is left alone: it may be shared with a wider
+    value (truncating casts are no-ops)."""
+    d = context.new_reg(RiscvRegister)
+    context.emit(Slli(d, c0, 32 - bits))
+    if signed:
+        context.emit(Srai(d, d, 32 - bits))
+    else:
+        context.emit(Srli(d, d, 32 - bits))
+    return d
+
+
 @isa.pattern("reg", "I8TOI16(reg)", size=4)
 @isa.pattern("reg", "I8TOI32(reg)", size=4)
+@isa.pattern("reg", "I8TOU16(reg)", size=4)
+@isa.pattern("reg", "I8TOU32(reg)", size=4)
 def pattern_i8_to_i32(context, tree, c0):
-    context.emit(Slli(c0, c0, 24))
-    context.emit(Srai(c0, c0, 24))
-    return c0
+    return extend_to_32(context, c0, 8, True)
 
 
 @isa.pattern("reg", "I16TOI32(reg)", size=4)
+@isa.pattern("reg", "I16TOU32(reg)", size=4)
 def pattern_i16_to_i32(context, tree, c0):
-    context.emit(Slli(c0, c0, 16))
-    context.emit(Srai(c0, c0, 16))
-    return c0
+    return extend_to_32(context, c0, 16, True)
 
 
-@isa.pattern("reg", "I8TOU16(reg)", size=4)
 @isa.pattern("reg", "U8TOU16(reg)", size=4)
 @isa.pattern("reg", "U8TOI16(reg)", size=4)
-def pattern_8_to_16(context, tree, c0):
-    context.emit(Slli(c0, c0, 24))
-    context.emit(Srli(c0, c0, 24))
-    return c0
-
-
-@isa.pattern("reg", "I8TOU32(reg)", size=4)
 @isa.pattern("reg", "U8TOU32(reg)", size=4)
 @isa.pattern("reg", "U8TOI32(reg)", size=4)
 def pattern_8_to_32(context, tree, c0):
-    context.emit(Slli(c0, c0, 24))
-    context.emit(Srli(c0, c0, 24))
-    return c0
+    return extend_to_32(context, c0, 8, False)
 
 
-@isa.pattern("reg", "I16TOU32(reg)", size=4)
 @isa.pattern("reg", "U16TOU32(reg)", size=4)
 @isa.pattern("reg", "U16TOI32(reg)", size=4)
 def pattern_16_to_32(context, tree, c0):
-    context.emit(Slli(c0, c0, 16))
-    context.emit(Srli(c0, c0, 16))
-    return c0
+    return extend_to_32(context, c0, 16, False)
 
 
 @isa.pattern("reg", "I32TOI8(reg)", size=0)
@@ -1237,18 +1237,14 @@ def pattern_shr_u32(context, tree, c0, c1):
 @isa.pattern("reg", "SHRI8(reg, reg)", size=2)
 def pattern_shr_i8(context, tree, c0, c1):
     d = context.new_reg(RiscvRegister)
-    context.emit(Slli(c0, c0, 24))
-    context.emit(Srai(c0, c0, 24))
-    context.emit(Sra(d, c0, c1))
+    context.emit(Sra(d, extend_to_32(context, c0, 8, True), c1))
     return d
 
 
 @isa.pattern("reg", "SHRI16(reg, reg)", size=2)
 def pattern_shr_i16(context, tree, c0, c1):
     d = context.new_reg(RiscvRegister)
-    context.emit(Slli(c0, c0, 16))
-    context.emit(Srai(c0, c0, 16))
-    context.emit(Sra(d, c0, c1))
+    context.emit(Sra(d, extend_to_32(context, c0, 16, True), c1))
     return d
 
 
